@@ -20,6 +20,9 @@ type DiskState struct {
 	AuditOn bool
 	Ops     int
 	FaultFn func(n *Node, kind, path string) error // error injection hook (harness)
+	// SQLFaultFn, if set, may fail a mutating SQL statement ("INSERT tbl", ...)
+	// before it is executed (busy / locked / I/O error of the database).
+	SQLFaultFn func(n *Node, stmt string) error
 	OpLog   []string
 	OpLogOn bool
 	TornOK  bool
@@ -137,6 +140,12 @@ func SQLOp(stmt string) error {
 		s.Probe("crash_at_sql_statement")
 		s.Logf("crash at disk op %d (sql %s)", n.DiskOps, stmt)
 		s.KillNode(n) // does not return
+	}
+	if d.SQLFaultFn != nil {
+		if err := d.SQLFaultFn(n, stmt); err != nil {
+			s.Logf("sql %s on %s fails: %v", stmt, n.Name, err)
+			return err
+		}
 	}
 	return nil
 }
